@@ -105,7 +105,7 @@ class Agg:
         t["processes"] += 1
         t["strings"] += d.get("strings", 0)
         t["constructions"] += d.get("constructions", 0)
-        if d.get("mode") == "exhaustive":
+        if d.get("mode") == "exhaustive" and not tool.startswith("miri"):
             a = d.get("args", [])
             key = "%s len<=%s" % (tool.split("-")[0], a[1] if len(a) > 1 else "?")
             self.enumerated[key] = max(self.enumerated.get(key, 0), d.get("enumerated", 0))
@@ -248,20 +248,21 @@ def run(tier, seed):
             _handle(chk, tool, cmd, rc, out, err, agg, avoid)
 
     # ---- Miri (tree borrows): seeded random sample + thinned exhaustive stream, reduced workload (--lite)
-    rc, out, err = _run(MIRI_CMD + ["replay", "0061", "--lite"] + av, env=MIRI_ENV, cwd=CRATE, timeout=1800)
+    # one serial run first: builds the crate for Miri once and tells whether Miri works at all
+    # (an empty shard: start-up, the interned-string table, the report)
+    probe = MIRI_CMD + ["exhaustive", "0", "1", "2", "--lite"] + av
+    rc, out, err = _run(probe, env=MIRI_ENV, cwd=CRATE, timeout=1800)
     miri_ok = rc == 0 and _parse(out) is not None
     if not miri_ok:
         if rc is not None and ("Undefined Behavior" in err or (_parse(out) or {}).get("violation")):
-            _handle(chk, "miri-probe", MIRI_CMD + ["replay", "0061", "--lite"] + av, rc, out, err, agg, avoid)
+            _handle(chk, "miri-probe", probe, rc, out, err, agg, avoid)
         else:
             chk.inconc("miri:unavailable")
-    else:
-        agg.add("miri-probe", _parse(out))
     known_miri = replay_known(chk, native, avoid, miri_ok)
     miri_runs = 0
     if miri_ok:
         nm = (96 if thorough else 16) - len(known_miri)
-        thin = 79 if not thorough else 40  # 157 strings of length <= 2 over the alphabet
+        thin = 79 if not thorough else 52  # 157 strings of length <= 2 over the alphabet, distinct shards per process
         mtasks = []
         for s in range(nm):
             if s % 2 == 0:
@@ -302,7 +303,7 @@ def run(tier, seed):
             "exhaustive": False,
             "exhaustive_subspace": {"exhaustive": True, "alphabet": ["a", "0", " ", "0x7F", "0x80", "0xE9", "0xFF", "0x100", "0x3C0", "0xD800", "0xDC00", "0xFFFF"],
                                     "max_length_native": ex_len, "strings_enumerated": agg.enumerated,
-                                    "note": "every string over the alphabet up to the length, every constructor, every pair, every operation with exhaustive parameters"},
+                                    "note": "every string over the alphabet up to the length (all shards run natively and under ASan; Miri takes a thinned sample of the length <= 2 enumeration, see strings_by_tool), every constructor, every pair, every operation with exhaustive parameters"},
             "strings_by_tool": agg.by_tool,
             "constructions_total": agg.constructions,
             "length_histogram": agg.len_hist,
